@@ -88,8 +88,10 @@ CHECKS = {
     "the three Interpreter routes (property_key, property_key_from_js_string, property_key_from_value) return Index(i) exactly for the "
     "canonical decimal spelling of i in [0,2^32-1] and otherwise String with unchanged content (no key is rewritten, keys are injective, "
     "all routes agree); for every f64 the two number routes agree; json_to_js_value_with_guard (JSON.parse / create_from_json) and "
-    "api::get_property / api::set_property build the same canonical key for every such document/host string. serde_json, the rest of "
-    "tree<->heap conversion, cycles and escapes are outside.")),
+    "api::get_property / api::set_property build the same canonical key for every such document/host string (boundary spellings also "
+    "through JSON.parse and the host API as a replay route); every Ok path of js_value_to_json_with_visited for an object inserts its id "
+    "into the cycle-detection set once and removes it again (a shared acyclic sub-object is not a cycle). serde_json, the rest of "
+    "tree<->heap conversion (toJSON, replacer, omitted functions) and escapes are outside.")),
  'C08': dict(design='section 3, C08', text=(
     "Kernel claim: the ledger hand-over step. Interpreter::process_vm_result (every VmResult variant) and Interpreter::step entered with "
     "no active VM are executed symbolically on a lazily materialised Interpreter whose pending/cancelled order lists (any length), "
@@ -153,8 +155,10 @@ CHECKS = {
     "Kernel claim. (a) ToInt32/ToUint32: the seven bitwise VM arms on every f64 bit pattern and undefined/null/boolean operands equal "
     "the ECMAScript definitions written over the IEEE-754 bit fields (complete operand domain, no bound). (b) PropertyKey::from_value on "
     "numbers is Index(i) iff the number is an integer in [0,2^32-1]. (c) value::number_to_string takes the integer/exponential/decimal "
-    "route exactly on the ECMAScript ranges (1e21, 1e-6). Digit generation, toFixed/toPrecision/radix and string->number parsing are "
-    "outside the claim.")),
+    "route exactly on the ECMAScript ranges (1e21, 1e-6). (d) The whitespace predicate of StringToNumber is true exactly for the "
+    "ECMAScript WhiteSpace/LineTerminator code points, for every Unicode scalar value. The digits number_to_string prints are compared "
+    "with an independent shortest-repr oracle on boundary and seeded random doubles - a replay route, not part of the symbolic claim. "
+    "toFixed/toPrecision/toExponential/radix and decimal string->number parsing are outside the claim.")),
  'C17': dict(design='section 3, C17', text=(
     "Kernel claim: NULL-argument totality. From the MIR dump built with --features c-api, each of the 64 extern \"C\" tsrun_* entry points "
     "is executed symbolically with every pointer parameter independently NULL or valid (helpers in src/ffi executed for real, everything "
